@@ -7,6 +7,7 @@ import (
 	"reflect"
 	"strconv"
 	"testing"
+	"time"
 
 	hessian "github.com/vogo/gohessian"
 
@@ -51,6 +52,8 @@ type scalarRig struct {
 	enc *hessian.Encoder
 	rd  *bytes.Reader
 	dec *hessian.Decoder
+	n   int
+	ser hessian.Serializer
 }
 
 func newScalarRig() *scalarRig {
@@ -72,7 +75,44 @@ func (r *scalarRig) trip(v interface{}) (b []byte, out interface{}, rest int, er
 	if err != nil {
 		return b, nil, 0, fmt.Errorf("decode: %v", err)
 	}
+	// the equivalent entry points must agree: the first few thousand values of a run (the boundary values) and
+	// every 32nd one afterwards also go through the one-shot functions
+	r.n++
+	if r.n <= 6000 || r.n%32 == 0 {
+		if r.ser == nil {
+			r.ser = hessian.NewSerializer(nil, nil)
+		}
+		if b2, e2 := hessian.ToBytes(v, nil); e2 != nil || !bytes.Equal(b2, b) {
+			return b, nil, 0, fmt.Errorf("ToBytes emits %x (err %v), Encoder.WriteObject %x", b2, e2, b)
+		}
+		if b3, e3 := r.ser.ToBytes(v); e3 != nil || !bytes.Equal(b3, b) {
+			return b, nil, 0, fmt.Errorf("Serializer.ToBytes emits %x (err %v), Encoder.WriteObject %x", b3, e3, b)
+		}
+		for i, f := range []func() (interface{}, error){
+			func() (interface{}, error) { return hessian.ToObject(b, nil) },
+			func() (interface{}, error) { return r.ser.ToObject(b) },
+			func() (interface{}, error) { return hessian.NewDecoder(nil, nil).Decode(b) },
+		} {
+			o2, e2 := f()
+			if e2 != nil || !sameScalar(o2, out) {
+				return b, nil, 0, fmt.Errorf("%s decodes %x to %T %v (err %v), Decoder.ReadObject to %T %v", []string{"ToObject", "Serializer.ToObject", "Decoder.Decode"}[i], b, o2, o2, e2, out, out)
+			}
+		}
+	}
 	return b, out, r.rd.Len(), nil
+}
+
+// sameScalar: equal decoded scalars (floats by bit pattern, so that NaN equals NaN).
+func sameScalar(a, b interface{}) bool {
+	if fa, ok := a.(float64); ok {
+		fb, ok2 := b.(float64)
+		return ok2 && (math.Float64bits(fa) == math.Float64bits(fb) || (fa != fa && fb != fb))
+	}
+	if ta, ok := a.(time.Time); ok {
+		tb, ok2 := b.(time.Time)
+		return ok2 && ta.Equal(tb)
+	}
+	return reflect.DeepEqual(a, b)
 }
 
 func checkInt32(r *scalarRig, v int32) string {
